@@ -166,7 +166,7 @@ def step (st : DState) (line : String) : DState × String :=
     -- the executable invariant of `Model/Kqueue` evaluated on a snapshot of the implementation
     let semi := fun (k : String) => let v := kv args k; if v == "-" || v == "" then [] else v.splitOn ";"
     let wd := (semi "wd").filterMap fun e => match e.splitOn ":" with
-      | [fd, nm, d] => some (natOf fd, ({ wd := natOf fd, name := unhex nm, linkName := [], isDir := d == "1" } : Kq.KW))
+      | [fd, nm, d, ln] => some (natOf fd, ({ wd := natOf fd, name := unhex nm, linkName := unhex ln, isDir := d == "1" } : Kq.KW))
       | _ => none
     let path := (semi "path").filterMap fun e => match e.splitOn ":" with
       | [p, fd] => some (unhex p, natOf fd)
